@@ -492,6 +492,9 @@ def search(res, tier, boost=False):
     # the same on a once uniformly refined mesh: more than 10 elements (the matrix is assembled by the large-matrix path,
     # N*M >= 100) with leaves of different time levels that start at the same time
     combos.append(('Dirichlet', 'UnitSquare', 1, ['t', 't', 's', 't']))
+    # three time slabs with one side refined 0 / 1 / 2 times in space: elements of different slabs whose parameter intervals
+    # are strictly nested without a common end point ([0,1] and [1/4,1/2]) or overlap-free neighbours of a level gap of two
+    combos.append((rng.choice(['Dirichlet', 'MildSingular']), rng.choice(['UnitSquare', 'LShape'] if tier != 'quick' else ['UnitSquare']), 0, 'nested'))
     if tier == 'thorough' or boost:
         combos.append(('MildSingular', 'Circle', 1, ['t', 's', 't']))
     # the driver (example.py) runs all problems against ONE cache directory per value of the straight-panel switch
@@ -504,14 +507,24 @@ def search(res, tier, boost=False):
     for problem, domain, unif, local_ops in combos:
         gamma = make_curve(domain)
         with contextlib.redirect_stdout(io.StringIO()):
-            mesh = MeshParametrized(gamma)
+            mesh = MeshParametrized(gamma) if local_ops != 'nested' else MeshParametrized(gamma, initial_time_mesh=[0., 0.5, 1., 1.5])
+            if local_ops == 'nested':
+                side = rng.randrange(len(gamma.pw_gamma))
+                lo = float(gamma.pw_start[side])
+                for slab, depth in ((1, 1), (2, 2)):
+                    for dd in range(depth):
+                        tgt = [e for e in mesh.leaf_elements if float(e.time_interval[0]) == 0.5 * slab and e.level_space == dd
+                               and lo <= float(e.space_interval[0]) < float(gamma.pw_start[side + 1])]
+                        tgt.sort(key=lambda e: float(e.space_interval[0]))
+                        if tgt:
+                            mesh.refine_space(tgt[(1 if dd == 1 else 0) % len(tgt)] if dd else tgt[0])
             if domain == 'LShape':
                 for e in list(mesh.leaf_elements):
                     if e.h_x > 1:
                         mesh.refine_space(e)
             for _ in range(unif):
                 mesh.uniform_refine()
-            for ax in (local_ops or []):
+            for ax in ([] if local_ops == 'nested' else (local_ops or [])):
                 cand = [e for e in mesh.leaf_elements if float(e.h_x)**2 / float(e.h_t) <= (8 if ax == 't' else 64)]
                 e = rng.choice(cand or list(mesh.leaf_elements))
                 mesh.refine_axis(e, 0 if ax == 't' else 1)
@@ -538,7 +551,7 @@ def search(res, tier, boost=False):
                     continue
                 Phi = np.linalg.solve(mat, rhs)
                 residual = ErrorEstimator.residual(None, elems, Phi, SL, M0u0, g, SL_exact_eval=pw)
-            sample_idx = set(range(len(elems))) if len(elems) <= 10 or tier == 'thorough' else set(rng.sample(range(len(elems)), 5))
+            sample_idx = set(range(len(elems))) if len(elems) <= 10 or tier == 'thorough' or local_ops == 'nested' else set(rng.sample(range(len(elems)), 5))
             for i, e in enumerate(elems):
                 if i not in sample_idx:
                     continue      # quick tier: the element means of a sample of the elements of the larger meshes
